@@ -562,6 +562,20 @@ int liberasurecode_decode_cleanup(int desc, char *data)
 }
 
 /**
+ * A fragment whose header announces more payload and backend metadata than
+ * the fragment_len the caller passed can hold: everything that trusts the
+ * header's sizes (payload checksum, copies, the backend) would read past the
+ * caller's buffer.  Callers have checked fragment_len >= sizeof(header).
+ */
+static int fragment_exceeds_length(const char *fragment, uint64_t fragment_len)
+{
+    const fragment_header_t *header = (const fragment_header_t *) fragment;
+    return (uint64_t) header->meta.size +
+           (uint64_t) header->meta.frag_backend_metadata_size >
+           fragment_len - sizeof(fragment_header_t);
+}
+
+/**
  * Reconstruct original data from a set of k encoded fragments
  *
  * @param desc - liberasurecode descriptor/handle
@@ -640,7 +654,8 @@ int liberasurecode_decode(int desc,
     for (i = 0; i < num_fragments; ++i) {
         /* Verify metadata checksum */
         if (is_invalid_fragment_header(
-                (fragment_header_t *) available_fragments[i])) {
+                (fragment_header_t *) available_fragments[i]) ||
+            fragment_exceeds_length(available_fragments[i], fragment_len)) {
             log_error("Invalid fragment header information!");
             ret = -EBADHEADER;
             goto out;
@@ -878,7 +893,8 @@ int liberasurecode_reconstruct_fragment(int desc,
     for (i = 0; i < num_fragments; i++) {
         /* Verify metadata checksum */
         if (is_invalid_fragment_header(
-                (fragment_header_t *) available_fragments[i])) {
+                (fragment_header_t *) available_fragments[i]) ||
+            fragment_exceeds_length(available_fragments[i], fragment_len)) {
             log_error("Invalid fragment header information!");
             ret = -EBADHEADER;
             goto out;
